@@ -18,16 +18,19 @@ const (
 )
 
 type pathOpts struct {
-	Kinds     int     // mask of segment kinds
-	MinSegs   int     // per sub-path
-	MaxSegs   int     // per sub-path
-	MaxSubs   int     // number of sub-paths 1..MaxSubs
-	Closed    int     // 0 open, 1 closed, 2 random per sub-path
-	Scale     float64 // coordinate range is [-50,50]*Scale
-	Integer   bool    // round all coordinates to integers (after scaling by 1/5)
-	CircArcs  bool    // arcs have rx == ry
-	MaxRatio  float64 // max rx/ry of arcs (default 10)
-	MildCurve bool    // Bézier control polygons turn by less than 90 degrees per segment
+	Kinds      int     // mask of segment kinds
+	MinSegs    int     // per sub-path
+	MaxSegs    int     // per sub-path
+	MaxSubs    int     // number of sub-paths 1..MaxSubs
+	Closed     int     // 0 open, 1 closed, 2 random per sub-path
+	Scale      float64 // coordinate range is [-50,50]*Scale
+	Integer    bool    // round all coordinates to integers (after scaling by 1/5)
+	CircArcs   bool    // arcs have rx == ry
+	MaxRatio   float64 // max rx/ry of arcs (default 10)
+	MildCurve  bool    // Bézier control polygons turn by less than 90 degrees per segment
+	EndInflect bool    // mild cubics: an inflection point next to the end point (u1 close to 2*u2)
+	NearChord  bool    // mild cubics: second control point (almost) on the chord
+	Inflect    int     // mild cubics: 0 random, +1 always with an inflection (S-shape), -1 never
 }
 
 func pickKind(r *core.Rng, mask int) int {
@@ -95,9 +98,32 @@ func genPath(r *core.Rng, o pathOpts) *canvas.Path {
 			case kCube:
 				if o.MildCurve {
 					dx, dy := ex-x, ey-y
-					u1, u2 := r.Range(-0.3, 0.3), r.Range(-0.3, 0.3)
+					// control points clearly off the chord (|u| >= 0.05): a control point on the chord puts
+					// an inflection point at or next to an end point, which is its own (demoted) class
+					u1, u2 := r.Range(0.05, 0.3), r.Range(0.05, 0.3)
 					if r.Bool() {
-						u2 = math.Copysign(u2, u1) // no inflection
+						u1 = -u1
+					}
+					if r.Bool() {
+						u2 = -u2
+					}
+					switch {
+					case o.Inflect < 0 || (o.Inflect == 0 && r.Bool()):
+						u2 = math.Copysign(u2, u1) // both control points on the same side: no inflection
+					case o.Inflect > 0:
+						u2 = -math.Copysign(u2, u1) // S-shape
+					}
+					if o.NearChord {
+						u2 = r.Range(-0.01, 0.01)
+					}
+					// u1 = 2*u2 (or u2 = 2*u1) makes the three last (first) control points collinear and
+					// equally spaced: an inflection point at the end point. Near that the library's cubic
+					// flattening fails (finding F-C03-end-inflection), so it is a class of its own.
+					for !o.EndInflect && !o.NearChord && (math.Abs(u1-2*u2) < 0.03 || math.Abs(u2-2*u1) < 0.03) {
+						u2 = math.Copysign(r.Range(0.05, 0.3), u2)
+					}
+					if o.EndInflect {
+						u1 = 2 * u2 * (1 + r.Range(-0.02, 0.02))
 					}
 					p.CubeTo(x+dx/3-u1*dy, y+dy/3+u1*dx, x+2*dx/3-u2*dy, y+2*dy/3+u2*dx, ex, ey)
 				} else {
